@@ -22,6 +22,12 @@ exact-size heap blocks):
       :put i text          col[i] = SimpleString(text), i any size_t (outside the range the collection's spare element is written: lost)
       :sz | :get i | :snap observers: size() / col[i] for any size_t i / size(), every element and the element behind the last one
       value = the log of the observers, then the collection as it is at the end (as :snap).
+  :als text n op_1 .. op_n  ALIASING: ONE object s = SimpleString(text) through statements whose argument points into s's OWN buffer, written in the
+      harness exactly as user code writes them (k, k1, k2 = offsets 0 .. size(), the terminator included):
+      :asgp k  s = s.asCharString() + k | :asgs  s = s | :ctor k  SimpleString t(s.asCharString() + k); s = t | :appp k  s += s.asCharString() + k
+      :apps  s += s | :repl k1 k2  s.replace(s.asCharString() + k1, s.asCharString() + k2)
+      observers: :cmpp k (==, contains, startsWith, endsWith, count of a pointer into itself) | :cmps (the same with s itself)
+      :sstr k1 k2 / :scmp k1 k2 (StrStr / StrCmp with both arguments inside the one buffer). value = s at the end, then the observers' log.
 Observation: <value> <independent reference (std::string/libc) agrees> <every buffer returned once with its size>."""
 import itertools
 from vlib import tz, tb
@@ -73,6 +79,9 @@ GROUP1 = ["strlen", "strcmp", "strncmp", "strstr", "memcmp", "contains", "contai
 GROUP2 = ["repls", "printable", "append", "plus", "copybuf", "fmt"]
 GROUP3 = ["atoi", "atou", "bytes"]       # number parsing; "bytes" = the per-byte sweeps of every character predicate
 GROUP4 = ["repeat", "pad", "split", "fromtill", "masked", "binary", "seq", "chain"]     # life cycle: allocation pairing on every operation and on sequences
+GROUP6 = ["alias"]                       # arguments pointing into the object's own buffer
+ALS_ARITY = {":asgp": 1, ":asgs": 0, ":ctor": 1, ":appp": 1, ":apps": 0, ":repl": 2, ":cmpp": 1, ":cmps": 0, ":sstr": 2, ":scmp": 2}
+ALS_MUT = (":asgp", ":asgs", ":ctor", ":appp", ":apps", ":repl")
 GROUP5 = ["coll"]                        # the collection as an object with a history; split with delimiters of every length
 COL_ARITY = {":sp": 2, ":al": 1, ":put": 2, ":sz": 0, ":get": 1, ":snap": 0}
 SEQ_ARITY = {":set": 2, ":asg": 2, ":app": 2, ":appc": 2, ":low": 2, ":sub": 4, ":rc": 3, ":rs": 3, ":prt": 2, ":pad": 3, ":fmt": 3, ":rep": 3, ":plus": 3,
@@ -770,9 +779,94 @@ def gen_coll(tier, rng):
     return out
 
 
+# ---------------------------------------------------------------- aliasing: the argument points into the object's own buffer
+def als(a, ops):
+    return ":als %s %x %s" % (tb(a), len(ops), " ".join(ops))
+
+
+def als_split(t):
+    """the steps of an :als scenario as token lists"""
+    ops, k = [], 3
+    while k < len(t):
+        n = ALS_ARITY.get(t[k])
+        if n is None:
+            break
+        ops.append(t[k:k + 1 + n])
+        k += 1 + n
+    return ops
+
+
+def als_step(s, o):
+    """textbook value of s after one step (o = token list)"""
+    w = o[0]; ks = [int(x, 16) for x in o[1:]]
+    if w in (":asgp", ":ctor"):
+        return s[ks[0]:]
+    if w == ":appp":
+        return s + s[ks[0]:]
+    if w == ":apps":
+        return s + s
+    if w == ":repl":
+        to, wi = s[ks[0]:], s[ks[1]:]
+        return s.replace(to, wi) if to else s
+    return s
+
+
+def als_all_steps(s, mut_only=False):
+    """every step that is valid on a string of this length (pointers 0 .. length)"""
+    L = len(s); ks = range(L + 1)
+    out = [":asgs", ":apps"] + [":%s %x" % (w, k) for w in ("asgp", "ctor", "appp") for k in ks] + [":repl %x %x" % (k1, k2) for k1 in ks for k2 in ks]
+    if not mut_only:
+        out += [":cmps"] + [":cmpp %x" % k for k in ks] + [":%s %x %x" % (w, k1, k2) for w in ("sstr", "scmp") for k1 in ks for k2 in ks]
+    return out
+
+
+def random_als(rng, a, maxops):
+    s, ops = a, []
+    for _ in range(rng.randint(1, maxops)):
+        L = len(s); k = lambda: rng.choice([0, L, rng.randint(0, L), max(L - 1, 0), min(1, L)])
+        w = rng.choice([":asgp", ":asgp", ":ctor", ":appp", ":apps", ":asgs", ":repl", ":cmpp", ":cmps", ":sstr", ":scmp"])
+        if L > 600 and w in (":appp", ":apps", ":repl"):
+            w = ":asgp"
+        n = ALS_ARITY[w]
+        o = [w] + ["%x" % k() for _ in range(n)]
+        ops.append(" ".join(o)); s = als_step(s, o)
+    return als(a, ops)
+
+
+def gen_alias(tier, rng):
+    out = []
+    quick = tier == "quick"
+    # (1) every single statement / observer with EVERY pointer into the buffer, on short texts over {a,b} (self-overlapping suffixes) and on lengths around
+    #     the string-cache classes; each mutator followed by the self comparison and one more drop-a-prefix
+    texts = small_strings(b"ab", 3) + [b"abab", b"aaaa", b"prefix:payload", b"unchanged", b"\x80\xffz"]
+    for a in texts:
+        for st in als_all_steps(a):
+            tail = [":cmps"] if st.split()[0] in ALS_MUT else []
+            out.append(als(a, [st] + tail))
+    for L in ((31, 64, 100) if quick else (1, 30, 31, 32, 33, 63, 64, 65, 99, 100, 101, 127, 128, 129, 255, 256, 257)):
+        a = nstr(rng, L, alpha=(0x61, 0x62, 0x3a))
+        for k in sorted(set([0, 1, 7 % (L + 1), L // 2, L - 1, L])):
+            out += [als(a, [":asgp %x" % k, ":cmps"]), als(a, [":ctor %x" % k]), als(a, [":appp %x" % k, ":asgp %x" % k]), als(a, [":repl %x %x" % (k, L - k)]),
+                    als(a, [":cmpp %x" % k, ":sstr %x %x" % (k, L - k), ":scmp %x %x" % (L - k, k)])]
+        out.append(als(a, [":apps", ":apps", ":asgs", ":asgp %x" % (2 * L)]))
+    # (2) second use of the same object: every ordered pair of mutators (all pointers) on three texts, then an observer
+    for a in ((b"ab", b"aba", b"aab") if quick else (b"", b"a", b"ab", b"aa", b"aba", b"aab", b"abb", b"aaa")):
+        for s1 in als_all_steps(a, mut_only=True):
+            mid = als_step(a, s1.split())
+            if len(mid) > 8:
+                continue
+            for s2 in als_all_steps(mid, mut_only=True):
+                out.append(als(a, [s1, s2, ":cmpp %x" % min(1, len(als_step(mid, s2.split())))]))
+    # (3) random histories
+    for _ in range(400 if quick else 20000):
+        a = rng.choice([nstr(rng, rng.choice([0, 1, 2, 3, 5, 8, 14, 31, 32, 100])), rng.choice(texts)])
+        out.append(random_als(rng, a, 6 if quick else 15))
+    return out
+
+
 def generate(tier, rng):
     ops = set(GROUP1 + GROUP2 + GROUP3 + GROUP4)
-    return gen_coll(tier, rng) + gen_life(ops, tier, rng) + gen_numbers(ops, tier, rng) + gen_ops(ops, tier, rng)
+    return gen_alias(tier, rng) + gen_coll(tier, rng) + gen_life(ops, tier, rng) + gen_numbers(ops, tier, rng) + gen_ops(ops, tier, rng)
 
 
 def nontrivial(s):
@@ -799,6 +893,22 @@ def classify(s):
                     L = (len(ops[k - 1][2]) - 1) // 2; b = int(x[2], 16); m = int(x[3], 16)
                     labels.append("chain: %s subString then %s" % ("truncating" if b < L and m < L - b else "non-truncating", y[0]))
         return labels
+    if t[0] == ":als":
+        ops = als_split(t)
+        a = bytes.fromhex(t[1][1:])
+        labels.append("als-length:" + ("1" if len(ops) == 1 else "2-3" if len(ops) <= 3 else ">3"))
+        muts = 0
+        for o in ops:
+            L = len(a)
+            for x in o[1:]:
+                k = int(x, 16)
+                labels.append("als %s: pointer %s" % (o[0], "at the start" if k == 0 else "at the terminator" if k == L else "inside"))
+            if o[0] in ALS_MUT:
+                muts += 1
+                if muts >= 2:
+                    labels.append("als: second statement on the same object (%s)" % o[0])
+            a = als_step(a, o)
+        return sorted(set(labels))
     if t[0] == ":col":
         ops = col_split(t)
         labels.append("col-length:" + ("1" if len(ops) == 1 else "2-5" if len(ops) <= 5 else "6-12" if len(ops) <= 12 else ">12"))
@@ -871,6 +981,9 @@ def signature(s, o):
     what = t[0]
     if t[0] == ":seq" and any(x in R_PRODUCERS for x in t):
         what = ":seq with an operation applied in place to a returned object"
+    if t[0] == ":als":
+        ops = als_split(t)
+        what = ":als, argument inside the object's own buffer (%s)" % (ops[0][0] if len(ops) == 1 else "history")
     if t[0] == ":col":
         ops = col_split(t)
         fills = [o for o in ops if o[0] in (":sp", ":al")]
@@ -897,6 +1010,33 @@ def shrink(s):
                     for c in sorted(set([v // 2, v - 1])):
                         o2 = o[:q] + ["%x" % c] + o[q + 1:]
                         yield seq([" ".join(x) for x in ops[:k] + [o2] + ops[k + 1:]])
+    if t[0] == ":als":
+        ops = als_split(t); a = bytes.fromhex(t[1][1:])
+
+        def ok(a2, ops2):                       # every pointer stays inside the buffer it points into
+            cur = a2
+            for o in ops2:
+                if any(int(x, 16) > len(cur) for x in o[1:]):
+                    return False
+                cur = als_step(cur, o)
+            return True
+        cands = []
+        for k in range(len(ops)):               # drop one step
+            if len(ops) > 1:
+                cands.append((a, ops[:k] + ops[k + 1:]))
+        for c in (a[:len(a) // 2], a[len(a) // 2:], a[1:], a[:-1]):      # shorter text
+            if c != a:
+                cands.append((c, ops))
+        for k, o in enumerate(ops):             # smaller offsets
+            for q in range(1, len(o)):
+                v = int(o[q], 16)
+                if v:
+                    for c in sorted(set([v // 2, v - 1])):
+                        cands.append((a, ops[:k] + [o[:q] + ["%x" % c] + o[q + 1:]] + ops[k + 1:]))
+        for a2, ops2 in cands:
+            if ok(a2, ops2):
+                yield als(a2, [" ".join(o) for o in ops2])
+        return
     if t[0] == ":col":
         ops = col_split(t)
         for k in range(len(ops)):               # drop one step
@@ -934,7 +1074,11 @@ LEVEL_TEXT = ("Machine-checked (Coq) theorems over a bounds-checked executable m
               "length into a collection in ANY earlier state is Ok and leaves exactly the C strings of the textbook tokens (C13_split_any_delimiter_spec; the textbook split characterised by "
               "C13_split_textbook_token_count / _concat / _delimiter_tail / _single_byte), every history of split / allocate / col[i] = s / size() / col[i] keeps the invariant and every "
               "observer reports the textbook answer (C13_collection_history_spec, _step_spec, _observers_spec); an allocate() that keeps a big-enough array and a scan stepping over the "
-              "whole delimiter are refuted variants.")
+              "whole delimiter are refuted variants. ALIASING (arguments pointing into the object's own buffer; heap-of-blocks model in which a released block cannot be read and the order of "
+              "reading the argument and releasing the old buffer is explicit): s = s.asCharString() + k, s += s.asCharString() + k, s += s, s = s, construct-then-assign, "
+              "s.replace(own + k1, own + k2) and the comparisons / StrStr / StrCmp inside one buffer are Ok and textbook for every offset and every history "
+              "(C13_alias_history_spec, _step_spec, _observers_spec, C13_xscn_meets_spec over the extended scenario language); a direct operator=(const char*) that releases before "
+              "reading is a refuted variant (C13_alias_assign_direct_refuted).")
 LEVEL_NOTE = ("Partial for memory safety: the proofs are about the bounds-checked model; real heap accesses are seen only by ASan in the run. Trusted: "
               "Coq kernel, extraction (ExtrOcamlBasic), harness, generators, LP64. Modelled not verified: the C++ itself; vsnprintf's formatting is an "
               "oracle (decimal/hex rendering is specified and compared, not derived from libc).")
